@@ -1056,6 +1056,11 @@ class _Programs(dict):
 PROGRAMS = _Programs(PROGRAMS)
 
 
+# a join key of one input that clashes with a NON-key column of the other input comes out under its suffix (a_x / a_y): selecting the
+# suffixed key must keep the other input's clashing column, or pandas applies no suffix to the pruned join (repaired defect 348202f)
+P("merge_keyclash_select_suffixed_left_key", lambda t: t.df[["a", "u"]].merge(t.df2[["a", "w"]].rename(columns={"a": "j"}).assign(a=lambda x: x.w * 2) if not t.lazy else t.df2[["a", "w"]].rename(columns={"a": "j"}).assign(a=t.df2.w * 2), left_on="a", right_on="j")[["a_x"]], order_free=True, index_free=True)
+P("merge_keyclash_select_suffixed_right_clash", lambda t: t.df[["a", "u"]].merge(t.df2[["a", "w"]].rename(columns={"a": "j"}).assign(a=lambda x: x.w * 2) if not t.lazy else t.df2[["a", "w"]].rename(columns={"a": "j"}).assign(a=t.df2.w * 2), left_on="a", right_on="j")[["a_y", "u"]], order_free=True, index_free=True)
+
 def generated_depth1(consumers=None):
     return [f"g:{o}:{c}" for o in UNARY for c in (consumers or CONSUMERS)]
 
